@@ -194,7 +194,7 @@ pub fn run_scaled(ctx: &mut Ctx, n_model: usize, n_big: usize, exhaustive_subset
     //     remainder of the block count, on every engine
     for n in 0..n_big.max(20) {
         let max_work = *ctx.rng.pick(&[8usize, 16, 32]);
-        let cfg = gen_cfg(&mut ctx.rng, max_work, &kinds, &ENGINES, &MULTI_BLOCK_SIZES);
+        let cfg = gen_cfg(&mut ctx.rng, max_work, &kinds, &ENGINES, if n % 4 == 3 { &LONG_SIZES } else { &MULTI_BLOCK_SIZES });
         let originals = gen_originals(&mut ctx.rng, cfg.k, cfg.sb);
         let Some(recovery) = encode_impl(&cfg, &originals) else {
             let c = Case::new("wide-encode");
